@@ -19,7 +19,8 @@ COQ_TARGET = "props/C12.v"
 THEOREMS = ["C12_default_channel", "C12_default_channel_any_order", "C12_track_token", "C12_settle_octave_once", "C12_track_token_plain",
             "C12_sync", "C12_frame", "C12_frame_indep", "C12_block_frame", "C12_block_indep", "C12_harmony_time_dead",
             "C12_commute_partial", "C12_block_local", "C12_commute_blocks",
-            "C12_switch_and_back", "C12_switch_and_back_pending", "C12_group_blocks"]
+            "C12_switch_and_back", "C12_switch_and_back_pending", "C12_group_blocks",
+            "C12_program_tracks", "C12_permute_program", "C12_group_program", "C12_prog_wf_computed"]
 DRIVERS = ["core"]
 RULE = ("2..8 blocks `TR(i) <block>`, i from 0,1,2,3,5,9,12,16,17,20, block = 1..4 items of the core-language generator (notes, rests, "
         "numbered notes, l/o/v/q/t and relative commands, octave-once, chords, tuplets, Sub, loops, comments), half of them closed by "
